@@ -73,7 +73,7 @@ func checkC08(c *Ctx) {
 				continue
 			}
 			call, _ := cs.Instr.(*ssa.Call)
-			switch Origin(f).Name() {
+			switch NameOf(Origin(f)) {
 			case "pipelineApply":
 				pa = call
 			case "splitByJumpTargets":
@@ -89,7 +89,7 @@ func checkC08(c *Ctx) {
 			var fs []string
 			DependsOn(pa.Call.Args[1], func(v ssa.Value) bool {
 				if f, ok := v.(*ssa.Function); ok {
-					fs = append(fs, Origin(f).Name())
+					fs = append(fs, NameOf(Origin(f)))
 				}
 				return false
 			})
@@ -218,7 +218,7 @@ func checkC08(c *Ctx) {
 		n := 0
 		for _, cs := range Calls(st) {
 			f := Callee(cs.Common())
-			if f == nil || Origin(f).Name() != "split" {
+			if f == nil || NameOf(Origin(f)) != "split" {
 				continue
 			}
 			n++
@@ -303,7 +303,7 @@ func checkC21(c *Ctx) {
 		})
 		builds := DeepInstrs(p, enter, func(in ssa.Instruction) bool {
 			call, ok := in.(*ssa.Call)
-			return ok && call.Call.StaticCallee() != nil && call.Call.StaticCallee().Name() == "newInstruction"
+			return ok && call.Call.StaticCallee() != nil && NameOf(call.Call.StaticCallee()) == "newInstruction"
 		})
 		c.RequireCount("C21.walk platform Parse calls reached from parser.Parse", len(decodes), 1)
 		c.RequireCount("C21.same newInstruction calls reached from parser.Parse", len(builds), 1)
@@ -324,10 +324,26 @@ func checkC21(c *Ctx) {
 			}
 			if bad == "" {
 				// bytes = block.Address(addr) of the current block and the same address
+				// (the Address call may sit in the decoding helper or at its call site:
+				// both sides are compared where the walk variable lives)
+				sameAddr := func(v ssa.Value) bool {
+					if SameValue(v, addrArg) || v == addrArg {
+						return true
+					}
+					r, _ := UpFrom(s.Chain, v)
+					return Unwrap(r) == Unwrap(walk)
+				}
+				isBlockAt := func(v ssa.Value) bool {
+					if isBlock(v, s.Chain) {
+						return true
+					}
+					r, rest := UpFrom(s.Chain, v)
+					return isBlock(r, rest)
+				}
 				okBytes := DependsOnVia(s.Chain, bytesArg, enter, func(v ssa.Value) bool {
 					ac, ok := v.(*ssa.Call)
-					return ok && ac.Call.StaticCallee() != nil && ac.Call.StaticCallee().Name() == "Address" && len(ac.Call.Args) == 2 &&
-						(SameValue(ac.Call.Args[1], addrArg) || ac.Call.Args[1] == addrArg) && isBlock(ac.Call.Args[0], s.Chain)
+					return ok && ac.Call.StaticCallee() != nil && NameOf(ac.Call.StaticCallee()) == "Address" && len(ac.Call.Args) == 2 &&
+						sameAddr(ac.Call.Args[1]) && isBlockAt(ac.Call.Args[0])
 				}, nil)
 				if !okBytes {
 					bad = "the bytes decoded are not block.Address(addr) of the current block at the walk address"
@@ -343,7 +359,7 @@ func checkC21(c *Ctx) {
 						if matches(bo.Y, Method("Len", func(v ssa.Value, _ *Bind) bool {
 							return DependsOnVia(rest, v, enter, func(x ssa.Value) bool {
 								nc, ok := x.(*ssa.Call)
-								return ok && nc.Call.StaticCallee() != nil && nc.Call.StaticCallee().Name() == "newInstruction"
+								return ok && nc.Call.StaticCallee() != nil && NameOf(nc.Call.StaticCallee()) == "newInstruction"
 							}, nil)
 						})) {
 							stepOK = true
@@ -377,7 +393,7 @@ func checkC21(c *Ctx) {
 				bad := ""
 				var valCall *ssa.Call
 				for _, cs := range Calls(bs.Fn) {
-					if f := Callee(cs.Common()); f != nil && f.Name() == "Validate" {
+					if f := Callee(cs.Common()); f != nil && NameOf(f) == "Validate" {
 						valCall, _ = cs.Instr.(*ssa.Call)
 					}
 				}
@@ -440,7 +456,7 @@ func checkC21(c *Ctx) {
 				if st, ok := in.(*ssa.Store); ok {
 					if fa, ok := st.Addr.(*ssa.FieldAddr); ok {
 						if f := FieldOf(fa); f != nil && TypeNameIs(fa.X.Type(), "*"+pkgParser+".Instruction") {
-							fieldVal[f.Name()] = st.Val
+							fieldVal[NameOf(f)] = st.Val
 						}
 					}
 				}
@@ -528,7 +544,7 @@ func checkC26(c *Ctx) {
 	if m := anchor(c, "cmd/mltwist.main"); m != nil {
 		var runCall *ssa.Call
 		for _, cs := range Calls(m) {
-			if f := Callee(cs.Common()); f != nil && f.Name() == "run" {
+			if f := Callee(cs.Common()); f != nil && NameOf(f) == "run" {
 				runCall, _ = cs.Instr.(*ssa.Call)
 			}
 		}
@@ -559,7 +575,7 @@ func checkC26(c *Ctx) {
 					}
 				case "fmt.Fprintf", "fmt.Fprintln", "fmt.Fprint":
 					if u, ok := Unwrap(cs.Common().Args[0]).(*ssa.UnOp); ok {
-						if g, ok := u.X.(*ssa.Global); ok && g.Name() == "Stderr" {
+						if g, ok := u.X.(*ssa.Global); ok && NameOf(g) == "Stderr" {
 							printOK = true
 						}
 					}
@@ -589,7 +605,7 @@ func checkC26(c *Ctx) {
 					continue
 				}
 				g, ok := u.X.(*ssa.Global)
-				if !ok || g.Name() != "Args" {
+				if !ok || NameOf(g) != "Args" {
 					continue
 				}
 				n++
@@ -641,7 +657,7 @@ func checkC26(c *Ctx) {
 	// moved into or out of helpers
 	var entries []*ssa.Function
 	for _, fn := range c.Prog.FuncsIn(ModulePath + "/" + pkgElf) {
-		if fn.Origin() == nil && fn.Blocks != nil && fn.Parent() == nil && token.IsExported(fn.Name()) {
+		if fn.Origin() == nil && fn.Blocks != nil && fn.Parent() == nil && token.IsExported(NameOf(fn)) {
 			entries = append(entries, fn)
 		}
 	}
@@ -754,7 +770,7 @@ func checkJumpsWalk(c *Ctx, j *ssa.Function) {
 	}
 	isCallTo := func(v ssa.Value, name string) *ssa.Call {
 		call, ok := Unwrap(v).(*ssa.Call)
-		if !ok || call.Call.StaticCallee() == nil || Origin(call.Call.StaticCallee()).Name() != name {
+		if !ok || call.Call.StaticCallee() == nil || NameOf(Origin(call.Call.StaticCallee())) != name {
 			return nil
 		}
 		return call
@@ -906,7 +922,7 @@ func checkJumpsWalk(c *Ctx, j *ssa.Function) {
 			// Possibilities(e.Value()) of the asserted RegStore
 			if !DependsOn(possCall.Call.Args[0], func(v ssa.Value) bool {
 				call, ok := v.(*ssa.Call)
-				return ok && call.Call.StaticCallee() != nil && call.Call.StaticCallee().Name() == "Value" && TypeNameIs(call.Call.Args[0].Type(), "pkg/expr.RegStore")
+				return ok && call.Call.StaticCallee() != nil && NameOf(call.Call.StaticCallee()) == "Value" && TypeNameIs(call.Call.Args[0].Type(), "pkg/expr.RegStore")
 			}) {
 				why = "the possibilities are not those of the stored value e.Value()"
 			}
